@@ -29,12 +29,13 @@ func decodeBound(p *Prog) *Bound {
 func init() {
 	register(&propInfo{
 		ID:          "C04",
-		Explanation: "Decides, for every function in the decode closure (all Codec.Read implementations of the module, Unmarshal, Descriptor.Read and the plenccore readers, closed under static callees and all in-module implementations of interface invokes), that every slice expression, index expression and stdlib precondition that involves the input bytes is in range (0 <= low <= high <= len, 0 <= i < len), that every allocation whose size derives from the input is proved 0 <= size <= len(data), that every loop has a variable proved to make progress bounded by the input length, and that every reader meets the contract err == nil => 0 <= n <= len(data) its callers rely on. Method: SSA-based abstract interpretation with linear-inequality facts (dominating branch conditions, callee contracts, Houdini-inferred loop invariants and helper pre/post-conditions) decided by Fourier-Motzkin elimination inside the analyser.",
+		Explanation: "Decides, for every function in the decode closure (all Codec.Read implementations of the module, Unmarshal, Descriptor.Read and the plenccore readers, closed under static callees and all in-module implementations of interface invokes), that every slice expression, index expression and stdlib precondition that involves the input bytes is in range (0 <= low <= high <= len, 0 <= i < len), that every allocation whose size derives from the input is proved 0 <= size <= len(data), that every loop has a variable proved to make progress bounded by the input length, and that every reader meets the contract err == nil => 0 <= n <= len(data) its callers rely on. Method: SSA-based abstract interpretation with linear-inequality facts (dominating branch conditions, callee contracts, Houdini-inferred loop invariants and helper pre/post-conditions) decided by Fourier-Motzkin elimination inside the analyser. (B.rawview) no slice or string header is made over raw memory (unsafe.Slice/unsafe.String) with a length that is not a constant - such a header is believed by every later copy and index; a loop bound loaded from the decode target (a capacity left by an earlier part of the input) counts as input-controlled.",
 		NotDecided:  "Stack depth on deeply nested input; 'promptly' beyond the linear iteration bound; heap growth across a sequence of calls (intern table); division by a zero Size of a user codec; nil-dereference of codec fields.",
 		Assumptions: []string{"A1", "A2", "A3", "A4", "A5", "A6"},
 		Run: func(c *Ctx) {
 			B := decodeBound(c.P)
 			B.obligations(c, boundOpts{prop: "C04", onlyTainted: true, progress: true, alloc: true, contracts: true})
+			ruleRawViews(c, B.funcs, false)
 			ruleNilDeref(c, B.funcs, "decode closure")
 			ruleGrowth(c)
 			ruleNestedAlloc(c, B)
